@@ -317,7 +317,15 @@ static int recv_events(m_ctx_t *c, int timeout) {
                         msg_consumed = true;
                     } else {
                         M_INFO("PoisonPilling '%s'.\n", mod->name);
-                        stop(mod, true);
+                        /* Events still being batched were sent before the pill: module manages them before being stopped */
+                        if (m_queue_len(mod->batch.events) > 0) {
+                            m_queue_t *evts = mod->batch.events;
+                            mod->batch.events = m_queue_new(mem_dtor);
+                            call_pubsub_cb(mod, evts);
+                        }
+                        if (m_mod_is(mod, M_MOD_RUNNING | M_MOD_PAUSED)) {
+                            stop(mod, true);
+                        }
                     }
                 }
             }
